@@ -194,6 +194,11 @@ class Check:
                 self.undecided.append(what + "; the changed code calls %s, which has no contract in this unit and was treated as returning anything - "
                                       "the failure may come from that over-approximation, and the native replay did not reproduce it (%s)" % (", ".join(nu), detail))
                 return
+            rr = getattr(self, "replay_required", None)
+            if rr is not None and rr(h, o):
+                self.undecided.append(what + "; this obligation over-approximates (it may fail on code that keeps the property) and the native replay "
+                                      "did not reproduce a failure: " + detail)
+                return
             if okey(h.name, o) in baseline:
                 for k in known:
                     if k.get("status") == "known" and self.matches_known(k, h, o, tag):
